@@ -472,10 +472,11 @@ def apply_rules(text, rules, dropped):
                 raise SliceError(f'bad sub rule {r}')
             rx, rep = m.group(1), m.group(2).replace('\\n', '\n')
             def _pad(_m, rep=rep):
-                d = _m.group(0).count('\n') - rep.count('\n')
+                out = re.sub(r'\\(\d)', lambda g: _m.group(int(g.group(1))) or '', rep)
+                d = _m.group(0).count('\n') - out.count('\n')
                 if d < 0:
                     raise SliceError(f'rule {r} would add lines')
-                return rep + '\n' * d
+                return out + '\n' * d
             new, n = re.subn(rx, _pad, text)
             if n == 0:
                 raise SliceError(f'rule {r} did not apply')
@@ -544,15 +545,89 @@ class Out:
         self.lines.append((text, {'o': 'repo', 'file': file, 'line': line, 'ctx': ctx}))
 
 
-def _region_bounds(body, start_rx, end_rx):
+def _depth_scan(text):
+    """yield (offset, depth_after, tok) for every significant token"""
+    depth = 0
+    for t in lex(text):
+        if t.kind in ('comment', 'doc'):
+            continue
+        if t.kind == 'punct' and t.text in OPEN:
+            depth += 1
+        elif t.kind == 'punct' and t.text in CLOSE:
+            depth -= 1
+        yield t, depth
+
+
+def _region_bounds(body, start_rx, end_rx, kv=None):
+    """Region selection inside a fn body. Modes (kv):
+       whole=1            the entire body
+       body=1             the inside of the block opened on the line of the start anchor (loop / if / closure body)
+       to=stmt            from the start anchor line to the end of the statement containing the end anchor
+                          (first `;` at the bracket depth of the region start, or end of a block statement)
+       default            from the start anchor line to the end anchor line, extended until brackets balance
+    Anchors should name binders / callees (left-hand sides, loop heads), not expressions that a change may touch."""
+    kv = kv or {}
+    if kv.get('whole'):
+        return 0, len(body)
     ms = re.search(start_rx, body, re.M)
     if not ms:
         raise SliceError(f'region start anchor /{start_rx}/ not found')
     s = body.rfind('\n', 0, ms.start()) + 1
+    if kv.get('body'):
+        # block opened by the start anchor: the `{` the anchor ends with, else the first `{` after it
+        if body[ms.end() - 1] == '{':
+            open_off = ms.end() - 1
+        else:
+            open_off = None
+            for t, d in _depth_scan(body[ms.end():]):
+                if t.kind == 'punct' and t.text == '{':
+                    open_off = ms.end() + t.s
+                    break
+        if open_off is None:
+            raise SliceError('body=1: no block after start anchor')
+        for t, d in _depth_scan(body[open_off:]):
+            if d == 0:
+                close_off = open_off + t.s
+                return open_off + 1, close_off
+        raise SliceError('body=1: unbalanced block')
+    if kv.get('stmts'):
+        # N complete statements starting at the line of the start anchor; stops early at the end of the enclosing block.
+        n = int(kv['stmts'])
+        toks = [(t, d) for t, d in _depth_scan(body[s:])]
+        count = 0
+        end = None
+        for idx, (t, d) in enumerate(toks):
+            if d < 0:
+                end = s + t.s          # enclosing block closes: region ends before it
+                break
+            nxt = toks[idx + 1][0] if idx + 1 < len(toks) else None
+            if d == 0 and t.kind == 'punct' and t.text == ';':
+                count += 1
+            elif d == 0 and t.kind == 'punct' and t.text == '}':
+                # a block statement (if / for / match / loop ...) ends here unless the expression continues
+                if nxt is None or not (nxt.text in ('else', '.', '?', ';', ')', ',', '=', 'in') or (nxt.kind == 'punct' and nxt.text in OPEN and False)):
+                    count += 1
+            if count >= n:
+                end = s + t.e
+                break
+        if end is None:
+            end = len(body)
+        return s, end
     me = re.search(end_rx, body[ms.start():], re.M)
     if not me:
         raise SliceError(f'region end anchor /{end_rx}/ not found')
     e0 = ms.start() + me.end()
+    if kv.get('to') == 'stmt':
+        # statement containing the end anchor starts at line start of the end match; extend to its terminating `;`
+        # at depth 0 relative to the region start (or to a closing `}` that returns to depth 0 when no `;` follows)
+        st = body.rfind('\n', 0, ms.start() + me.start()) + 1
+        for t, d in _depth_scan(body[st:]):
+            if d == 0 and t.kind == 'punct' and t.text == ';':
+                e = st + t.e
+                return s, e
+            if d < 0:
+                return s, st + t.s
+        raise SliceError('to=stmt: statement end not found')
     # extend to end of line, then until brackets are balanced
     e = body.find('\n', e0)
     if e < 0:
@@ -670,7 +745,7 @@ def generate(unit_dir, vacuity=False, mutate=None):
                 bo = src.toks[it['body_open']].e
                 bc = src.toks[it['body_close']].s
                 body = src.text[bo:bc]
-                rs, re_ = _region_bounds(body, kv['start'], kv['end'])
+                rs, re_ = _region_bounds(body, kv.get('start'), kv.get('end'), kv)
                 sha_src = body[rs:re_]
                 text = apply_rules(sha_src, rules, dropped)
                 l0 = src.line_of(bo + rs)
